@@ -4,7 +4,8 @@
     *_asis = transcription of the Rust code (RBig), x*_asis = Relaxed, *_spec = canonical exact rational. *)
 From Coq Require Import QArith Qabs.
 From Dashu Require Import Base.Prelude Ratio.RatArithModel Ratio.RatArithCanon Ratio.RatArithProofs
-  Ratio.RatArithConst Ratio.RatArithRelaxed Ratio.RatArithQ Ratio.RatArithHistory Ratio.RatArithSummary.
+  Ratio.RatArithConst Ratio.RatArithRelaxed Ratio.RatArithQ Ratio.RatArithHistory Ratio.RatArithSummary
+  Ratio.RatArithRelaxedInv.
 Open Scope Z_scope.
 
 (* ------------------------------------------------------------ the canonical form *)
@@ -182,6 +183,24 @@ Theorem C04_relaxed_binop_exact : forall o x y, RInv x -> RInv y -> res_veq (xbi
 Proof. exact xbin_asis_spec. Qed.
 Print Assumptions C04_relaxed_binop_exact.
 
+Theorem C04_relaxed_intop_exact : forall u o x i, RInv x -> (u = true -> 0 <= i) ->
+  res_veq (xint_asis u o x i) (int_spec o x i).
+Proof. exact xint_asis_spec. Qed.
+Print Assumptions C04_relaxed_intop_exact.
+
+Theorem C04_relaxed_unop_exact : forall o x, RInv x -> res_veq (xun_asis o x) (un_spec o x).
+Proof. exact xun_asis_spec. Qed.
+Print Assumptions C04_relaxed_unop_exact.
+
+Theorem C04_relaxed_pow_exact : forall x e, RInv x -> 0 <= e -> res_veq (Ok (xpow_asis x e)) (Ok (pow_spec x e)).
+Proof. exact xpow_asis_spec. Qed.
+Print Assumptions C04_relaxed_pow_exact.
+
+Theorem C04_relaxed_parse : forall n d,
+  res_veq (xparse_asis n d) (parse_spec n d) \/ (d = 0 /\ xparse_asis n d = Err 0 /\ parse_spec n d = Err 0).
+Proof. exact xparse_asis_spec. Qed.
+Print Assumptions C04_relaxed_parse.
+
 Theorem C04_spec_depends_on_value_only : forall o x y x0 y0,
   RInv x -> RInv y -> RInv x0 -> RInv y0 -> veq x x0 -> veq y y0 -> bin_spec o x y = bin_spec o x0 y0.
 Proof. exact bin_spec_congr. Qed.
@@ -210,6 +229,42 @@ Print Assumptions C04_relaxed_equals_rbig_pow.
 Theorem C04_relaxed_div_rem_euclid : forall x y, RInv x -> RInv y -> res_veq_q (xdivreme_asis x y) (divreme_spec x y).
 Proof. exact xdivreme_asis_spec. Qed.
 Print Assumptions C04_relaxed_div_rem_euclid.
+
+(* ------------------------------------------------------------ Relaxed: reduction by powers of two only *)
+Theorem C04_relaxed_reduce2_removes_all_common_twos : forall n d r, 0 < d -> reduce2_asis (n, d) = Ok r -> RInv2 r.
+Proof. exact reduce2_asis_RInv2. Qed.
+Print Assumptions C04_relaxed_reduce2_removes_all_common_twos.
+
+Theorem C04_relaxed_binop_no_common_two : forall o x y r, RInv x -> RInv y -> xbin_asis o x y = Ok r -> RInv2 r.
+Proof. exact xbin_asis_RInv2. Qed.
+Print Assumptions C04_relaxed_binop_no_common_two.
+
+Theorem C04_relaxed_intop_no_common_two : forall u o x i r,
+  RInvE x -> (u = true -> 0 <= i) -> xint_asis u o x i = Ok r -> RInvE r.
+Proof. exact xint_asis_RInvE. Qed.
+Print Assumptions C04_relaxed_intop_no_common_two.
+
+Theorem C04_relaxed_unop_no_common_two : forall o x r, RInvE x -> xun_asis o x = Ok r -> RInvE r.
+Proof. exact xun_asis_RInvE. Qed.
+Print Assumptions C04_relaxed_unop_no_common_two.
+
+Theorem C04_relaxed_pow_no_common_two : forall x e, RInvE x -> 0 <= e -> RInvE (xpow_asis x e).
+Proof. exact xpow_asis_RInvE. Qed.
+Print Assumptions C04_relaxed_pow_no_common_two.
+
+Theorem C04_relaxed_from_parts_const_no_common_two : forall s n d r,
+  0 <= n -> 0 <= d -> xfrom_parts_const_asis s n d = Ok r -> RInvE r.
+Proof. exact xfrom_parts_const_asis_RInvE. Qed.
+Print Assumptions C04_relaxed_from_parts_const_no_common_two.
+
+Theorem C04_history_relaxed_no_common_two : forall ops p, Forall RInvE p -> Forall RInvE (hrun heval_xasis ops p).
+Proof. exact hrun_xasis_RInvE. Qed.
+Print Assumptions C04_history_relaxed_no_common_two.
+
+Theorem C04_relaxed_zero_not_normalised_by_integer_sums :
+  RInvE (3, 3) /\ xint_asis false ISub (3, 3) 1 = Ok (0, 3) /\ ~ RInv2 (0, 3) /\ RInvE (0, 3).
+Proof. exact xint_zero_not_normalised. Qed.
+Print Assumptions C04_relaxed_zero_not_normalised_by_integer_sums.
 
 (* ------------------------------------------------------------ all finite histories *)
 Theorem C04_history_invariant_and_exact : forall ops p, Forall Inv p ->
